@@ -105,9 +105,12 @@ def run(ctx):
     if not common_copies_identical():
         raise vlib.InfraError("harness/C19_*/c19_common_test.go copies differ")
     mc = (lambda *a, **k: None) if os.environ.get("VERIF_DEV_SKIP_MC") else ctx.tlc   # development aid only
-    mc(sd, "TokenSalt", "MC_TokenSalt.cfg", timeout=900, extra=["-coverage", "1"] if ctx.thorough else [],
-       label="decision table within the contract outside KF_form/KF_cookie; every scenario decided")
-    got, r = ctx.gen(sd, "TokenSalt", "Gen_TokenSalt.cfg", timeout=900, label="scenario emission")
+    if ctx.thorough:
+        mc(sd, "TokenSalt", "MC_TokenSalt.cfg", timeout=900, extra=["-coverage", "1"],
+           label="decision table within the contract outside KF_form/KF_cookie; every scenario decided (liveness)")
+    # the Gen configuration checks the same invariants (TypeOK, Decided, Covered) on the complete table
+    got, r = ctx.gen(sd, "TokenSalt", "Gen_TokenSalt.cfg", timeout=900,
+                     label="scenario emission + table within the contract outside KF_form/KF_cookie, every row decided")
     ctx.extra["scenarios_emitted"] = len(got)
     ctx.exhaustive = True      # the finite table of classes x placements x sites is enumerated completely
     scns = []
